@@ -493,7 +493,8 @@ class StructureVisitor(ASTTemplate):
         for name, comp in ds.components.items():
             is_kept_id = comp.role == Role.IDENTIFIER and name in group_cols
             is_kept_measure = comp.role == Role.MEASURE and not is_count
-            if is_kept_id or is_kept_measure:
+            # Viral attributes are propagated to the aggregated result
+            if is_kept_id or is_kept_measure or comp.role == Role.VIRAL_ATTRIBUTE:
                 comps[name] = comp
         if is_count:
             comps["int_var"] = self._make_comp("int_var", Integer)
@@ -717,6 +718,11 @@ class StructureVisitor(ASTTemplate):
         for name, comp in right_ds.components.items():
             if comp.role == Role.IDENTIFIER and name not in comps:
                 comps[name] = comp
+        # Viral attributes of either operand are propagated to the result
+        for side in (left_ds, right_ds):
+            for name, comp in side.components.items():
+                if comp.role == Role.VIRAL_ATTRIBUTE and name not in comps:
+                    comps[name] = comp
 
         return Dataset(name=left_ds.name, components=comps, data=None)
 
